@@ -19,14 +19,15 @@ def sh(cmd, **kw):
 def main():
     args = [a for a in sys.argv[1:] if not a.startswith('--')]
     ids = args or sorted(d for d in os.listdir(SEED) if os.path.isdir(os.path.join(SEED, d)))
-    resf = os.path.join(SEED, 'RESULTS.json')
+    outs = [a.split('=', 1)[1] for a in sys.argv[1:] if a.startswith('--out=')]
+    resf = outs[0] if outs else os.path.join(SEED, 'RESULTS.json')      # --out=<file>: partial results (merge with tools/merge_results.py)
     results = json.load(open(resf)) if os.path.exists(resf) else {}
     results = {k: v for k, v in results.items() if k not in ids}
     claimed = [c['property_id'] for c in json.load(open(os.path.join(ROOT, 'MANIFEST.json')))['checks']]
     wt = f'/tmp/seedrepo_{os.getpid()}'
     sh(f'git -C /repo worktree remove --force {wt}')
     assert sh(f'git -C /repo worktree add --detach {wt} HEAD').returncode == 0
-    env = dict(os.environ, PYTHONPATH=wt, VERIF_EVIDENCE_DIR='/tmp/seed_evidence')
+    env = dict(os.environ, PYTHONPATH=wt, VERIF_EVIDENCE_DIR=f'/tmp/seed_evidence_{os.getpid()}')
     for mid in ids:
         d = os.path.join(SEED, mid)
         meta = json.load(open(os.path.join(d, 'meta.json')))
@@ -60,7 +61,7 @@ def main():
         results[mid] = r
         json.dump(results, open(resf, 'w'), indent=1)
     sh(f'git -C /repo worktree remove --force {wt}')
-    sh('rm -rf /tmp/seed_evidence')
+    sh(f'rm -rf /tmp/seed_evidence_{os.getpid()}')
     print(json.dumps({k: {p: (c if isinstance(c, str) else c['exit']) for p, c in v['checks'].items()} for k, v in results.items()}, indent=1))
 
 
